@@ -35,7 +35,7 @@ from pathlib import Path, PurePosixPath
 from hypothesis import strategies as st
 
 from vf import env
-from vf.core import Violation, as_violation, drive, exc_kind, pymoca_frame
+from vf.core import Violation, as_violation, drive, pymoca_frame
 
 ID = "C26"
 LEVEL = "exploration"
@@ -48,7 +48,9 @@ RULE = (
     "(succeeding, failing to flatten, unknown, context-dependent, ambiguous stem), -v count 0-2, "
     "four option spellings, shuffled option order, and four argparse-level errors (no PATH, -t "
     "without -m, invalid -t, -m without value).  Half of the draws are steered to usage-clean "
-    "calls so that the model stage is reached.  Non-trivial = at least two planted errors (bad "
+    "calls so that the model stage is reached, and three rare conjunctions (duplicate stem + "
+    "casadi + that model; sympy + unwritable output file; casadi + an option that breaks "
+    "generation) get a fixed share.  Non-trivial = at least two planted errors (bad "
     "outdir, each missing PATH, each ill-formed -O, no .mo found, each file with parse errors, "
     "each failing model, argparse error) or at least two -m models.  Distinct = distinct abstract "
     "invocation (canonical JSON)."
@@ -73,7 +75,7 @@ ASSUMPTIONS = [
     "sympy generator.generate and casadi api.transfer_model called directly by the harness; "
     "the options dict is rebuilt by the harness from the -O strings in command-line order",
 ]
-SHARDS = {"quick": 16, "thorough": 16}
+SHARDS = {"quick": 8, "thorough": 16}  # start-up (casadi, sympy, antlr imports) dominates the quick tier
 
 # --------------------------------------------------------------------------
 # scratch tree layouts (the stored case names the layout; replay rebuilds it)
@@ -123,7 +125,6 @@ DEFAULT_LAYOUT = "v1"
 MODELS_OK = ["Good1", "Good2", "Good3", "Good4", "Good5", "GoodM", "GoodE", "Pkg.Inner", "Pkg", "Inner2"]
 MODELS_CTX = ["UsesGood1"]  # succeeds or fails depending on what else is on the PATHs
 MODELS_BAD = ["BadClass", "BadMod", "Nope", "Syn1"]
-ALL_MODELS = MODELS_OK + MODELS_CTX + MODELS_BAD
 
 OPTS_GOOD = [
     "spam=eggs",
@@ -138,7 +139,6 @@ OPTS_GOOD = [
 ]
 OPTS_BAD = ["eggs", "a=b=c", "check_balanced", "expand_mx=True=1"]
 
-OUTDIRS = ["dir", "omitted", "blocked", "missing", "file"]
 ARGERRS = ["no_path", "t_without_m", "bad_target", "m_no_value"]
 
 
